@@ -7,12 +7,10 @@ From HN Require Import Base.Bytes Base.Http1Text Model.SigAst Model.Http1 Model.
 Import ListNotations.
 Open Scope N_scope.
 
-Lemma gate_method me : In me supported_methods ->
-  bytes_eqb me (bs "MKCALENDAR") || bytes_eqb me (bs "REPORT") = false -> mem_bytes me gate_methods = true.
-Proof.
-  intros H K. cbn [supported_methods In] in H.
-  repeat (destruct H as [<- | H]; [first [reflexivity | discriminate K] |]). contradiction.
-Qed.
+Lemma supported_in_gate : forallb (fun x => mem_bytes x gate_methods) supported_methods = true.
+Proof. vm_compute. reflexivity. Qed.
+Lemma gate_method me : In me supported_methods -> mem_bytes me gate_methods = true.
+Proof. intros H. pose proof supported_in_gate as S. rewrite forallb_forall in S. now apply S. Qed.
 
 Lemma line_ok_special h : line_ok true h = true ->
   (named (bs "accept-language") h = true -> exists items, hl_value h = VLang items /\ items_ok items = true) /\
@@ -58,7 +56,7 @@ Proof.
   pose proof (model_headers_ok _ _ O Hl) as Hok. fold (model_headers m) in Hok.
   pose proof (spec_reported_ok m W) as Rok.
   unfold known_cookies in Kc. rewrite R in Kc. cbn [andb] in Kc. apply N.ltb_ge in Kc.
-  unfold known_lang, known_lang_ows, known_lang_case in Kl. rewrite R, !andb_true_l in Kl. unfold lang_items in Kl.
+  unfold known_lang in Kl. rewrite R, andb_true_l in Kl. unfold lang_items in Kl.
   rewrite expect_request_unfold. cbv zeta.
   unfold observe_request, req_of. cbv zeta.
   cbn [r_method r_uri r_version r_headers r_cookies r_referer r_user_agent r_accept_language].
@@ -93,8 +91,7 @@ Proof.
   { destruct (find (named (bs "accept-language")) (m_headers m)) as [h|] eqn:F; [|reflexivity].
     apply find_some in F as [Hin Hn]. rewrite Forall_forall in Hl.
     destruct (line_ok_special h (Hl h Hin)) as [Ha _]. destruct (Ha Hn) as (items & Ei & Oi).
-    cbn [option_map]. rewrite Ei in *. apply orb_false_iff in Kl as [K1 K2].
-    now apply lang_is_argmax_first. }
+    cbn [option_map]. rewrite Ei in *. now apply lang_is_argmax_first. }
   rewrite Lg. clear Lg.
   unfold version_of, expsw_of, software. destruct v; reflexivity.
 Qed.
@@ -102,18 +99,18 @@ Qed.
 Theorem request_faithful m me t v body : wf m = true -> m_start m = SReq me t v -> known m = false ->
   analyse_request (render m ++ body) = Ok (expect_request m me t v).
 Proof.
-  intros W Es K. unfold known in K. apply orb_false_iff in K as [K Kl]. apply orb_false_iff in K as [Km Kc].
+  intros W Es K. unfold known in K. apply orb_false_iff in K as [Kc Kl].
   rewrite (analyse_request_render m me t v) by assumption.
   destruct (wf_parts m W) as (Hs & _). rewrite Es in Hs. cbn [start_ok] in Hs.
   repeat (apply andb_true_iff in Hs as [Hs ?]). apply mem_bytes_In in Hs.
-  unfold known_method in Km. rewrite Es in Km. rewrite (gate_method me Hs Km).
+  rewrite (gate_method me Hs).
   now rewrite observe_request_spec.
 Qed.
 
 (* ---------- witnesses: each known class contains a well-formed message the code misreports ---------- *)
 Definition hraw (n v : bytes) : hline := {| hl_name := n; hl_ows1 := [sp]; hl_value := VRaw v; hl_ows2 := [] |}.
-Definition item (pre tag : bytes) (w : option (bytes * bytes * bytes)) : lang_item :=
-  {| li_pre := pre; li_tag := tag; li_weight := w; li_post := [] |}.
+Definition item (pre tag : bytes) (w : option (bytes * bytes * bytes)) (post : bytes) (up : bool) : lang_item :=
+  {| li_pre := pre; li_tag := tag; li_weight := w; li_post := post; li_qupper := up |}.
 Definition hlang (items : list lang_item) : hline :=
   {| hl_name := bs "Accept-Language"; hl_ows1 := [sp]; hl_value := VLang items; hl_ows2 := [] |}.
 Definition get_msg (me : bytes) (hs : list hline) : msg := {| m_start := SReq me (bs "/") true; m_headers := hs |}.
@@ -127,33 +124,35 @@ Definition refuted (m : msg) : Prop :=
 Ltac refute := split; [vm_compute; reflexivity |
   cbn [m_start get_msg]; intros H; apply (f_equal (show_result show_req)) in H; vm_compute in H; discriminate H].
 
-(* REPORT (and MKCALENDAR) requests are accepted by the parser's method list but never analysed *)
-Definition w_method : msg := get_msg (bs "REPORT") [hraw (bs "Host") (bs "a")].
-Lemma Known_method_refuted : exists m, known_method m = true /\ refuted m.
-Proof. exists w_method. split; [reflexivity | refute]. Qed.
-
 (* two Cookie headers: the cookies of the first one are lost *)
 Definition w_cookies : msg := get_msg (bs "GET") [hraw (bs "Host") (bs "a"); hraw (bs "Cookie") (bs "a=b"); hraw (bs "Cookie") (bs "c=d")].
 Lemma Known_cookies_refuted : exists m, known_cookies m = true /\ refuted m.
 Proof. exists w_cookies. split; [reflexivity | refute]. Qed.
 
-(* "fr; q=0.1, en; q=0.9": OWS after ';' makes both weights 1.0, French is reported *)
-Definition w_weight_ows : msg :=
-  get_msg (bs "GET") [hlang [item (bs "") (bs "fr") (Some ((bs ""), (bs " "), (bs "0.1"))); item (bs " ") (bs "en") (Some ((bs ""), (bs " "), (bs "0.9")))]].
-Lemma Known_weight_ows_refuted : exists m, known_lang_ows m = true /\ refuted m.
-Proof. exists w_weight_ows. split; [reflexivity | refute]. Qed.
+(* "fr;Q=0.1,en;q=0.9": the literal "Q=" (ABNF literals are case-insensitive) is not removed, the
+   weight does not parse and counts as 1.0: French is reported *)
+Definition w_upper_q : msg :=
+  get_msg (bs "GET") [hlang [item [] (bs "fr") (Some ([], [], bs "0.1")) [] true; item [] (bs "en") (Some ([], [], bs "0.9")) [] false]].
+Lemma Known_upper_q_refuted : exists m, known_lang m = true /\ refuted m.
+Proof. exists w_upper_q. split; [reflexivity | refute]. Qed.
 
-(* "EN": language tags are case-insensitive (RFC 4647), the table lookup is not *)
-Definition w_tag_case : msg := get_msg (bs "GET") [hlang [item (bs "") (bs "EN") None]].
-Lemma Known_tag_case_refuted : exists m, known_lang_case m = true /\ refuted m.
-Proof. exists w_tag_case. split; [reflexivity | refute]. Qed.
+(* the former classes are inside the theorem now: witnesses of the repaired defects *)
+Definition w_method : msg := get_msg (bs "REPORT") [hraw (bs "Host") (bs "a")].
+Definition w_weight_ows : msg :=
+  get_msg (bs "GET") [hlang [item [] (bs "fr") (Some ([], [sp], bs "0.1")) [] false; item [sp] (bs "en") (Some ([sp], [tab], bs "0.9")) [sp] false;
+                             item [] (bs "de") None [] false]].
+Definition w_tag_case : msg := get_msg (bs "GET") [hlang [item [] (bs "EN") None [] false]].
+Example repaired_classes_ok :
+  forallb (fun m => wf m && negb (known m)) [w_method; w_weight_ows; w_tag_case] = true.
+Proof. vm_compute. reflexivity. Qed.
 
 (* ---------- the hypotheses of the theorems are satisfiable on non-trivial inputs ---------- *)
 Definition ex_request : msg :=
   get_msg (bs "POST") [hraw (bs "Host") (bs "example.com"); hraw (bs "user-agent") (bs "curl/8.4.0");
                   {| hl_name := bs "COOKIE"; hl_ows1 := [sp; tab]; hl_value := VRaw (bs "sid=1; theme=dark;flag"); hl_ows2 := [sp] |};
                   hraw (bs "Referer") (bs "http://a/"); hraw (bs "X-Note") (bs "caf  tab	inside");
-                  hlang [item (bs "") (bs "xx") None; item (bs " ") (bs "en-US") (Some ((bs " "), (bs ""), (bs "0.8"))); item (bs "") (bs "fr") (Some ((bs ""), (bs ""), (bs "0.9")))];
+                  hlang [item [] (bs "xx") None [] false; item [sp] (bs "En-US") (Some ([sp], [sp; tab], bs "0.8")) [sp] false;
+                         item [] (bs "FR") (Some ([], [], bs "0.9")) [] false];
                   hraw (bs "Host") (bs "dup")].
 Example ex_request_ok : wf ex_request = true /\ known ex_request = false /\ is_request ex_request = true.
 Proof. vm_compute. repeat split; reflexivity. Qed.
